@@ -62,8 +62,8 @@ def main():
                             "behavioural property. " + getattr(mod, "EXPLANATION", ""),
                     "design_ref": f"DESIGN.md §4 {i}",
                 },
-                "level_note": "Assumes A1-A5 of DESIGN.md §1 (cancel-aware CFG model, suspension kills shared facts, summaries checked as "
-                              "obligations, name-based field identity, asyncio/CPython trusted). Not decided: " + getattr(mod, "NOT_DECIDED", ""),
+                "level_note": "Assumes A1-A7 of DESIGN.md §1 (cancel-aware CFG model, suspension kills shared facts, summaries checked as "
+                              "obligations, name-based field identity, asyncio/CPython trusted, queued waiter pairs are real objects, counters are non-negative). Not decided: " + getattr(mod, "NOT_DECIDED", ""),
                 "technique": "static analysis: " + TECH.get(i, "CFG/dataflow obligations"),
             })
         else:
